@@ -1,6 +1,6 @@
 (* Dispatcher for the Ser area (C12, C14): executable entry points used by the
    correspondence checks gen/c12.py and gen/c14.py. *)
-From FendV Require Import Base.Prelude Ser.Generated.BuiltinNames Ser.Codec Ser.Cfg.
+From FendV Require Import Base.Prelude Ser.Generated.BuiltinNames Ser.Codec Ser.Cfg Ser.Witness.
 Open Scope N_scope.
 
 
@@ -94,14 +94,14 @@ with canon_oscope (o : oscope) : oscope :=
 with canon_items (it : items) : items :=
   match it with INil => INil | ICons k v r => ICons k (canon_value v) (canon_items r) end.
 
-Definition sx_flags (sz : sizes) (v : value) : list sx :=
-  [sx_bool (wfc_value as_names sz v); sx_bool (wfs_value v); sx_bool (has_scope_value v);
+Definition sx_flags (c : cfg) (v : value) : list sx :=
+  [sx_bool (wfc_value as_names (c_cap c) (c_sz c) v); sx_bool (wfs_value v); sx_bool (has_scope_value v);
    sx_bool (names_ok_value from_names v); sx_N (size_value v);
    (* every literal is accepted or is one of the five listed ones *)
    sx_bool (names_ok_value (from_names ++ known_missing_names) v)].
 
-Definition sx_entry (sz : sizes) (kv : bytes * value) : sx :=
-  XL (XS (fst kv) :: XS (ser_entry kv) :: sx_flags sz (snd kv) ++ [XS (ser_entry (fst kv, canon_value (snd kv)))]).
+Definition sx_entry (c : cfg) (kv : bytes * value) : sx :=
+  XL (XS (fst kv) :: XS (ser_entry kv) :: sx_flags c (snd kv) ++ [XS (ser_entry (fst kv, canon_value (snd kv)))]).
 
 
 (* readable dump of a value tree (debugging aid for replays) *)
@@ -175,7 +175,7 @@ Definition run_ser : dispatcher := fun op args =>
     match args with
     | c :: chunks =>
       match as_cfg c, as_chunks chunks with
-      | Some c, Some img => Some (sx_out (fun (m : vars) rest => [XL (map (sx_entry (c_sz c)) m); sx_N (len_N rest)]) (de_vars c img))
+      | Some c, Some img => Some (sx_out (fun (m : vars) rest => [XL (map (sx_entry c) m); sx_N (len_N rest)]) (de_vars c img))
       | _, _ => Some sx_bad
       end
     | _ => Some sx_bad
@@ -184,7 +184,7 @@ Definition run_ser : dispatcher := fun op args =>
     match args with
     | c :: chunks =>
       match as_cfg c, as_chunks chunks with
-      | Some c, Some img => Some (sx_out (fun (v : value) rest => [XS (ser_value v); sx_N (len_N rest); XL (sx_flags (c_sz c) v)]) (de_value_top c img))
+      | Some c, Some img => Some (sx_out (fun (v : value) rest => [XS (ser_value v); sx_N (len_N rest); XL (sx_flags c v)]) (de_value_top c img))
       | _, _ => Some sx_bad
       end
     | _ => Some sx_bad
@@ -198,6 +198,8 @@ Definition run_ser : dispatcher := fun op args =>
       end
     | _ => Some sx_bad
     end
+  else if opeq op "witnesses" then
+    Some (XL (map XS witness_images))
   else if opeq op "names" then
     Some (XL [XL (map XS as_names); XL (map XS from_names);
               XL (map XS (filter (fun s => negb (mem s from_names)) as_names))])
